@@ -234,9 +234,104 @@ def c02_cases(ctx):
     return all_cases(ctx, pos, 'succ', 'successor')
 
 
+
+def geometry_positions(ctx):
+    """every (attacker kind, attacker square, king square) on an otherwise empty board, plus variants with one blocker:
+    checks by every piece kind from every direction and distance, for both colours (C05 quantifier)"""
+    out = []
+    sqname = lambda s: 'abcdefgh'[s % 8] + str(8 - s // 8)
+
+    def fen(pieces, side):
+        rows = []
+        for r in range(8):
+            row, empty = '', 0
+            for f in range(8):
+                c = pieces.get(r * 8 + f)
+                if c is None:
+                    empty += 1
+                else:
+                    if empty:
+                        row += str(empty)
+                    empty = 0
+                    row += c
+            if empty:
+                row += str(empty)
+            rows.append(row)
+        return '/'.join(rows) + '_%s_-_-_0_1' % side
+    for ks in range(64):
+        for at in range(64):
+            if at == ks:
+                continue
+            for kind in 'qrbnp':
+                if kind == 'p' and at // 8 in (0, 7):
+                    continue
+                for white_attacked in (True, False):
+                    # the attacked king, the attacker of the other colour, the other king far away from everything
+                    k_att = 'K' if white_attacked else 'k'
+                    k_oth = 'k' if white_attacked else 'K'
+                    a = kind if white_attacked else kind.upper()
+                    other = next(s for s in (63, 0, 7, 56, 36, 27, 18, 45) if s not in (ks, at) and max(abs(s % 8 - ks % 8), abs(s // 8 - ks // 8)) > 1)
+                    pieces = {ks: k_att, at: a, other: k_oth}
+                    out.append(fen(pieces, 'w' if white_attacked else 'b'))
+                    # one blocker strictly between attacker and king (sliders on a common line)
+                    df, dr = ks % 8 - at % 8, ks // 8 - at // 8
+                    if kind in 'qrb' and (df == 0 or dr == 0 or abs(df) == abs(dr)) and max(abs(df), abs(dr)) > 1 and ctx.rng.chance(1, 3):
+                        n = max(abs(df), abs(dr))
+                        j = 1 + ctx.rng.below(n - 1)
+                        bsq = (at % 8 + (df // n) * j) + 8 * (at // 8 + (dr // n) * j)
+                        if bsq not in pieces:
+                            p2 = dict(pieces)
+                            p2[bsq] = ctx.rng.pick(['N', 'n', 'B', 'b'])
+                            out.append(fen(p2, 'w' if white_attacked else 'b'))
+    return out
+
+
+def terminal_variants(ctx, pos):
+    """checkmate / stalemate positions with every kind of clock: the evaluator must score mate as mate whatever the clocks"""
+    ans = core.run_model(['spec:terminal %s' % p for p in pos])
+    out = []
+    for p, a in zip(pos, ans):
+        if a in ('mate', 'stalemate'):
+            f = p.split('_')
+            for hm in (0, 50, 99, 100, 101, 150, 4000):
+                for fm in (1, 2, 80, 2400):
+                    g = list(f)
+                    g[4], g[5] = str(hm), str(fm)
+                    out.append(('_'.join(g), a))
+    return out
+
+
+def eval_terminal_oracle(kind, fen_tok):
+    side = fen_tok.split('_')[1]
+    fm = int(fen_tok.split('_')[5])
+
+    def f(a):
+        try:
+            v = int(a)
+        except ValueError:
+            return 'malformed evaluation'
+        if kind == 'stalemate' and v != 0:
+            return 'stalemate evaluated %d instead of the draw score' % v
+        if kind == 'mate':
+            want = -(2 ** 24 - fm) if side == 'w' else (2 ** 24 - fm)
+            if v != want:
+                return 'checkmated side to move evaluated %d (white-centric) instead of the mate score %d' % (v, want)
+        return None
+    return f
+
 def c05_cases(ctx):
     pos = positions(ctx, ctx.scale(2500, 40000))
-    return all_cases(ctx, pos, 'incheck', 'in-check') + all_cases(ctx, pos, 'terminal', 'mate-stalemate')
+    cases = all_cases(ctx, pos, 'incheck', 'in-check') + all_cases(ctx, pos, 'terminal', 'mate-stalemate')
+    geo = geometry_positions(ctx)
+    ok = core.run_model(['wf %s' % p for p in geo])
+    geo = [p for p, a in zip(geo, ok) if a == '1']
+    ctx.notes.append('attack-geometry stream: %d well-formed two/three-piece positions (every kind x attacker square x king square x colour)' % len(geo))
+    cases += all_cases(ctx, geo, 'incheck', 'attack-geometry-exhaustive') + all_cases(ctx, geo, 'terminal', 'attack-geometry-terminal')
+    # the evaluator's mate / stalemate decision (anchor: heuristic.rs) on terminal positions with all kinds of clocks
+    for p, kind in terminal_variants(ctx, pos + wf_corpus('terminal_fens.txt')):
+        cases.append(Case('eval %s' % p, 'evaluator-terminal-decision', oracle=eval_terminal_oracle(kind, p)))
+        cases.append(Case('terminal %s' % p, 'terminal-with-clocks', spec='spec:terminal %s' % p))
+    return cases
 
 
 # ------------------------------------------------------------------------------------------------------ C03
@@ -286,6 +381,16 @@ def c06_cases(ctx):
         if f[3] != '-':
             v = list(f); v[3] = '-'
             cases.append(Case('hash %s' % '_'.join(v), 'variant:ep'))
+            # same position with the e.p. target on another file (only the e.p. component differs)
+            v = list(f); v[3] = ctx.rng.pick([c for c in 'abcdefgh' if c != f[3][0]]) + f[3][1]
+            cases.append(Case('hash %s' % '_'.join(v), 'variant:epfile'))
+        elif ctx.rng.chance(1, 6):
+            # an e.p. target added on two different files
+            r = '6' if f[1] == 'w' else '3'
+            a, b = ctx.rng.pick('abcd'), ctx.rng.pick('efgh')
+            for fl in (a, b):
+                v = list(f); v[3] = fl + r
+                cases.append(Case('hash %s' % '_'.join(v), 'variant:epfile'))
     return cases
 
 
@@ -881,6 +986,9 @@ def c11_cases(ctx):
     for p in pos:
         cases.append(Case('eval %s' % p, 'static-eval'))
         cases.append(Case('eval %s' % flip_fen(p), 'static-eval-of-flip'))
+    for p, kind in terminal_variants(ctx, pos + wf_corpus('terminal_fens.txt')):
+        cases.append(Case('eval %s' % p, 'terminal-sign', oracle=eval_terminal_oracle(kind, p)))
+        cases.append(Case('eval %s' % flip_fen(p), 'terminal-sign', oracle=eval_terminal_oracle(kind, flip_fen(p))))
     return cases
 
 
@@ -919,7 +1027,7 @@ PROPS = {
                          'core/src/constants/direction.rs', 'core/src/constants/square.rs'],
                 assumptions=['rustc evaluates the const tables as dumped by the same binary at run time']),
     'C05': dict(modules=['Inkayaku.Props.C05', 'Inkayaku.Props.Closure'], theorems=['Inkayaku.Closure.no_moves_iff_rules', 'Inkayaku.C05.square_attacked', 'Inkayaku.C05.in_check', 'Inkayaku.C05.current_in_check', 'Inkayaku.C05.valid', 'Inkayaku.C05.move_legal', 'Inkayaku.C05.wf_not_in_check', 'Inkayaku.C05.occupancy_in_check', 'Inkayaku.C05.no_moves_iff'], cases=c05_cases, anchors=BOARD_ANCHORS),
-    'C06': dict(modules=['Inkayaku.Props.C06', 'Inkayaku.Props.C06Gen'], theorems=['Inkayaku.C06Gen.hash_incremental_generated', 'Inkayaku.C06Gen.pawnHash_incremental_generated', 'Inkayaku.C06.hash_incremental', 'Inkayaku.C06.pawnHash_incremental', 'Inkayaku.C06.hash_congr', 'Inkayaku.C06.hash_vis', 'Inkayaku.C06.hash_clocks', 'Inkayaku.C06.keys_good', 'Inkayaku.C06.hash_side', 'Inkayaku.C06.hash_toggles_right', 'Inkayaku.C06.hash_ep_file', 'Inkayaku.C06.hash_moves_piece', 'Inkayaku.C06.hash_changes_kind'], cases=c06_cases, post=c06_post, anchors=BOARD_ANCHORS),
+    'C06': dict(modules=['Inkayaku.Props.C06', 'Inkayaku.Props.C06Gen'], theorems=['Inkayaku.C06Gen.hash_incremental_generated', 'Inkayaku.C06Gen.ep_key_by_file', 'Inkayaku.C06Gen.pawnHash_incremental_generated', 'Inkayaku.C06.hash_incremental', 'Inkayaku.C06.pawnHash_incremental', 'Inkayaku.C06.hash_congr', 'Inkayaku.C06.hash_vis', 'Inkayaku.C06.hash_clocks', 'Inkayaku.C06.keys_good', 'Inkayaku.C06.hash_side', 'Inkayaku.C06.hash_toggles_right', 'Inkayaku.C06.hash_ep_file', 'Inkayaku.C06.hash_moves_piece', 'Inkayaku.C06.hash_changes_kind'], cases=c06_cases, post=c06_post, anchors=BOARD_ANCHORS),
     'C10': dict(modules=['Inkayaku.Props.C10', 'Inkayaku.Props.C10Fifty'],
                 theorems=['Inkayaku.C10.countRepetitions_value', 'Inkayaku.C10.countRepetitions_spec',
                           'Inkayaku.C10.never_reads_above_start', 'Inkayaku.C10.threefold_iff',
